@@ -93,4 +93,70 @@ def felixPrograms (T : FelixTable) (v : Str) (ipip vxlan : Mode) : Bool :=
   else if modeOn ipip then felixIPIP T v
   else felixNoEncap T v
 
+/-! ## Felix's consumers of the two booleans (dataplane side)
+
+`FelixEnv` is what the consumers look at: the two booleans as plumbed by felix/dataplane/driver.go,
+`Encapsulation.NoEncapNeeded/IPIPEnabled/VXLANEnabled` as computed by
+calc.EncapsulationCalculator from the pools present, and the unrelated switches of the route
+resolver gate.  `FelixGuards` are the guard conditions regenerated from the source. -/
+
+structure FelixEnv where
+  progIPIP : Bool
+  progNoEncap : Bool
+  noEncapNeeded : Bool
+  ipipEnabled : Bool
+  vxlanEnabled : Bool
+  vxlanEnabledV6 : Bool
+  bpf : Bool
+  wg : Bool
+  wg6 : Bool
+
+structure FelixGuards where
+  /-- int_dataplane.go: the IPIP manager is started -/
+  ipipMgr : FelixEnv → Bool
+  /-- ipip_mgr.go: the manager hands routes to its route manager -/
+  ipipRoutes : FelixEnv → Bool
+  /-- int_dataplane.go: the noEncap manager (programs unencapsulated cluster routes) is started -/
+  noEncapMgr : FelixEnv → Bool
+  /-- int_dataplane.go: the VXLAN manager is started -/
+  vxlanMgr : FelixEnv → Bool
+  /-- calc_graph.go: the L3 route resolver (source of the RouteUpdates all three managers consume) is wired in -/
+  resolver : FelixEnv → Bool
+
+/-- Which pool classes exist in the cluster (IPv4), as EncapsulationCalculator.updatePool counts
+them: a pool is "no-encap" iff neither mode is on. -/
+structure Pools where
+  ipip : Bool
+  vxlan : Bool
+  noEncap : Bool
+
+/-- The environment Felix derives from the stored setting `v` and the pools present
+(`NoEncapNeeded() = ProgramNoEncapClusterRoutes() && len(noEncapPools) > 0`; no
+IpInIpEnabled/VXLANEnabled overrides). -/
+def felixEnv (T : FelixTable) (v : Str) (ps : Pools) (vx6 bpf wg wg6 : Bool) : FelixEnv :=
+  { progIPIP := felixIPIP T v, progNoEncap := felixNoEncap T v,
+    noEncapNeeded := felixNoEncap T v && ps.noEncap,
+    ipipEnabled := ps.ipip, vxlanEnabled := ps.vxlan, vxlanEnabledV6 := vx6, bpf := bpf, wg := wg, wg6 := wg6 }
+
+inductive PoolClass where
+  | vxlan | ipip | noEncap
+deriving Repr, DecidableEq
+
+/-- Does Felix's dataplane program the cluster routes of pool class `c`. -/
+def felixDataplanePrograms (G : FelixGuards) (e : FelixEnv) : PoolClass → Bool
+  | .vxlan => G.vxlanMgr e
+  | .ipip => G.ipipMgr e && G.ipipRoutes e
+  | .noEncap => G.noEncapMgr e
+
+/-- Pool modes representing a class (for `felixPrograms` / `birdPrograms`). -/
+def PoolClass.modes : PoolClass → Mode × Mode
+  | .vxlan => (.never, .always)
+  | .ipip => (.always, .never)
+  | .noEncap => (.never, .never)
+
+def Pools.has (ps : Pools) : PoolClass → Bool
+  | .vxlan => ps.vxlan
+  | .ipip => ps.ipip
+  | .noEncap => ps.noEncap
+
 end CalicoVerif.C28
